@@ -9,6 +9,10 @@
 //
 // Input (whitespace separated tokens, one record per line):
 //   CASE <now> <granularity>
+//   RANGES <k> (<first> <second> <granularity>)*k     range-based (dynamic) discretisation, as passed to
+//                                                      Scheduler::registerSTRL(timeRangeToGranularities)
+//   PASSES <critical-path 0|1> <discretisation-selection 0|1> <capacity-purge 0|1> <minDisc> <maxDisc> <threshold%>
+//                                                      OptimizationPassRunner, run around parse like Scheduler.cpp:84-110
 //   PART <pid> <quantity> <available 0|1>
 //   NODE <idx> CHOOSE <name> <amount> <start> <dur> <util> <k> <pid>*k
 //   NODE <idx> ALLOC  <name> <start> <dur> <k> (<pid> <amount>)*k
@@ -31,6 +35,7 @@
 
 #include "tetrisched/CapacityConstraint.hpp"
 #include "tetrisched/Expression.hpp"
+#include "tetrisched/OptimizationPasses.hpp"
 #include "tetrisched/Partition.hpp"
 #include "tetrisched/SolverModel.hpp"
 
@@ -87,6 +92,8 @@ struct CaseSpec {
   std::vector<std::pair<int, NodeSpec>> nodes;   // in input order: children before parents
   int root = -1;
   std::vector<std::vector<double>> assigns;
+  std::vector<std::array<long long, 3>> ranges;     // empty: static discretisation
+  std::array<long long, 6> passes{0, 0, 0, 1, 5, 80};
 };
 
 static std::string jnum(double x) {
@@ -165,7 +172,33 @@ static void build(const CaseSpec& cs, Built& b) {
     b.nodes[idx] = e;
   }
   b.model = G::newModel();
-  b.cmap = std::make_shared<CapacityConstraintMap>(static_cast<Time>(cs.gran));
+  // Scheduler::registerSTRL, Scheduler.cpp:77-83
+  if (cs.ranges.empty()) {
+    b.cmap = std::make_shared<CapacityConstraintMap>(static_cast<Time>(cs.gran));
+  } else {
+    std::vector<std::pair<TimeRange, Time>> rs;
+    for (auto& r : cs.ranges)
+      rs.push_back({{static_cast<Time>(r[0]), static_cast<Time>(r[1])}, static_cast<Time>(r[2])});
+    b.cmap = std::make_shared<CapacityConstraintMap>(rs);
+  }
+}
+
+// registerSTRL: pre-translation passes, parse, post-translation passes (Scheduler.cpp:84-110)
+static void lower(const CaseSpec& cs, Built& b) {
+  auto root = b.nodes.at(cs.root);
+  if (root->getType() != ExpressionType::EXPR_OBJECTIVE)
+    throw std::runtime_error("The expression passed to the scheduler is not an objective function");
+  auto cfg = std::make_shared<OptimizationPassConfig>();
+  cfg->minDiscretization = static_cast<Time>(cs.passes[3]);
+  cfg->maxDiscretization = static_cast<Time>(cs.passes[4]);
+  cfg->maxOccupancyThreshold = static_cast<float>(cs.passes[5]) / 100.0f;
+  OptimizationPassRunner runner(cfg, false);
+  if (cs.passes[0]) runner.addOptimizationPass(OptimizationPassCategory::CRITICAL_PATH_PASS);
+  if (cs.passes[1]) runner.addOptimizationPass(OptimizationPassCategory::DYNAMIC_DISCRETIZATION_PASS);
+  if (cs.passes[2]) runner.addOptimizationPass(OptimizationPassCategory::CAPACITY_CONSTRAINT_PURGE_PASS);
+  runner.runPreTranslationPasses(static_cast<Time>(cs.now), root, b.cmap);
+  root->parse(b.model, b.available, b.cmap, static_cast<Time>(cs.now));
+  runner.runPostTranslationPasses(static_cast<Time>(cs.now), root, b.cmap);
 }
 
 static std::string dumpModel(Built& b) {
@@ -258,17 +291,14 @@ static std::string runCase(const CaseSpec& cs) {
   try {
     Built b;
     build(cs, b);
-    // Scheduler::registerSTRL (Scheduler.cpp:66-71) only accepts an ObjectiveExpression as the root
-    if (b.nodes.at(cs.root)->getType() != ExpressionType::EXPR_OBJECTIVE)
-      throw std::runtime_error("The expression passed to the scheduler is not an objective function");
-    b.nodes.at(cs.root)->parse(b.model, b.available, b.cmap, static_cast<Time>(cs.now));
+    lower(cs, b);
     o << "\"err\":null," << dumpModel(b) << ",\"sols\":[";
     for (size_t i = 0; i < cs.assigns.size(); i++) {
       o << (i ? "," : "");
       try {
         Built b2;   // populateResults memoises the solution in the tree: rebuild and re-parse per assignment
         build(cs, b2);
-        b2.nodes.at(cs.root)->parse(b2.model, b2.available, b2.cmap, static_cast<Time>(cs.now));
+        lower(cs, b2);
         o << dumpSolution(cs, b2, cs.assigns[i]);
       } catch (std::exception& e) {
         o << "{\"err\":" << jstr(e.what()) << "}";
@@ -298,6 +328,16 @@ int main() {
       cs = CaseSpec();
       in >> cs.now >> cs.gran;
       open = true;
+    } else if (tok == "RANGES") {
+      int k;
+      in >> k;
+      for (int i = 0; i < k; i++) {
+        std::array<long long, 3> r{};
+        in >> r[0] >> r[1] >> r[2];
+        cs.ranges.push_back(r);
+      }
+    } else if (tok == "PASSES") {
+      for (int i = 0; i < 6; i++) in >> cs.passes[i];
     } else if (tok == "PART") {
       std::array<long long, 3> p{};
       in >> p[0] >> p[1] >> p[2];
